@@ -3,6 +3,7 @@ import TrackVerif.LT.Protocol
 import TrackVerif.LT.ProtocolCount
 import TrackVerif.LT.Schema
 import TrackVerif.LT.Spec
+import TrackVerif.LT.Tree
 import TrackVerif.Generated.LT
 /-
   Line-protocol side of the LapTimer area.
@@ -138,14 +139,6 @@ partial def dumpV : V → String
 
 def charsToHex (cs : List Char) : String := hexOfString (String.ofList cs)
 
-/-- whitespace-only character data between elements is layout, unless it is the whole content of
-    an element (`<note>\t</note>`) -/
-def significant : List Xml.XTok → List Xml.XTok
-  | .start n as :: .text t :: .stop m :: r => .start n as :: (if t.isEmpty then [] else [.text t]) ++ .stop m :: significant r
-  | .text t :: r => if t.all Xml.isSpace then significant r else .text t :: significant r
-  | x :: r => x :: significant r
-  | [] => []
-
 /-- an omitempty fixed-decimal field whose value is not zero but prints as zero: the recorded
     re-encoding finding -/
 partial def roundsToZero (s : Schema) (ty : LtType) (om : Bool) (v : V) : Bool :=
@@ -184,11 +177,11 @@ def c13Verdict (db : V) (encB : List UInt8) (gz : String) : Option String :=
       | .ok want =>
         -- premise of `document_is_laptimer_rendering`: names without '&'
         if !(want.all Xml.tokOk) then some "SKIP reason=name-with-ampersand" else
-        let wantSig := significant (want.map fun t => match t with
+        let wantSig := Xml.significant (want.map fun t => match t with
           | .text s => Xml.XTok.text (Text.substitute s)
           | .start n as => .start n (as.map fun (k, v) => (k, Text.substitute v))
           | t => t)
-        let gotSig := significant toks
+        let gotSig := Xml.significant toks
         if gotSig != wantSig then
           let firstDiff := ((gotSig.zip wantSig).find? fun (a, b) => a != b)
           some s!"VIOL clause=lt.wellformed why=content-differs lens={gotSig.length},{wantSig.length} first={(repr firstDiff).pretty.take 300}"
